@@ -30,6 +30,7 @@ import gen
 import nagarun
 import ocamlbuild
 import vcheck
+import wgslcheck
 import wgslgen
 
 LEVEL = "proof"
@@ -105,7 +106,7 @@ def collect_programs(ctx):
                 break
         else:
             continue
-        progs.append(Prog("typed/%d" % i, src, "typed"))
+        progs.append(Prog("typed/%d" % i, src, "typed", meta={"ast": _ast}))
     nb = scale(45, 800)
     for i in range(nb):
         mode = ["legal", "legal", "any"][i % 3]
@@ -270,7 +271,11 @@ def run(ctx):
     tools = vcheck.build_harness(["acceptdrive", "goextract"])
     model_files = ["Valid/ValidatorModel.v", "Valid/ValidatorModelFixed.v", "Valid/CfLegal.v", "Valid/Reach.v",
                    "Valid/BindingRule.v", "Valid/StmtInd.v", "Valid/CfProofs.v", "Valid/ReachProofs.v",
-                   "Valid/BindingProofs.v", "Valid/ModuleProofs.v", "Valid/FixedProofs.v"]
+                   "Valid/BindingProofs.v", "Valid/ModuleProofs.v", "Valid/FixedProofs.v",
+                   # "valid WGSL" made formal: verified type checker over the generator's ASTs
+                   "Wgsl/Typecheck.v", "Wgsl/TypecheckBase.v", "Wgsl/TypecheckOps.v", "Wgsl/TypecheckBuiltins.v",
+                   "Wgsl/TypecheckMem.v", "Wgsl/TypecheckUnfold.v", "Wgsl/SemUnfold.v", "Wgsl/TypecheckProofs.v",
+                   "Wgsl/TypecheckProgram.v", "Wgsl/TypecheckRules.v"]
     ok, failed, log = vcheck.proof_step(ctx, "Props/C08.v", model_files,
                                         gen_writer=lambda: gen.regenerate(tools, ["irenums"]))
     ctx.cov["trusted_base"] += [
@@ -280,6 +285,10 @@ def run(ctx):
         "rule class of an ir.ValidationError is recovered from the fixed frame of its message (lib/c08lib.py MSG_CLASSES): the struct carries no rule identifier",
         "applicability rules of option sets (lib/c08lib.py applicable, corpus .toml targets) and the WGSL validity of the hand-written feature matrix (lib/c08matrix.py) are stated by hand",
         "modelled: ir/validate.go in full; NOT modelled: parser, lowerer, backends (covered by the pipeline tie on the implementation only)",
+        "valid WGSL for the typed generator = accepted by Wgsl/Typecheck.wgsl_check (extracted tool wgslcheck, run on every generated AST; "
+        "sound w.r.t. Wgsl/Sem.v: Props/C08.v wgsl_typecheck_sound); trusted: my reading of the WGSL typing rules in Wgsl/Typecheck.v, "
+        "lib/wgslgen.py render (AST -> text), coq/Wgsl/Decode.v; the checker is conservative (matrix constructors from scalars, "
+        "continuing blocks using body-scope names, forward calls in module order are rejected)",
     ]
     ctx.assumptions = [
         "WGSL placement rules as formalised in Valid/CfLegal.v (discard is unrestricted by continuing blocks, as in the current WGSL specification)",
@@ -302,6 +311,11 @@ def run(ctx):
                     progs.append(Prog("replay/" + fn, f.read(), "matrix"))
     else:
         progs = collect_programs(ctx)
+        # every program of the typed generator must be valid WGSL by the verified checker (not only "by construction")
+        try:
+            wgslcheck.accept_leg(ctx, [(p.name, p.meta["ast"], p.src) for p in progs if p.kind == "typed" and "ast" in p.meta])
+        except Exception as e:  # the checker no longer extracts / builds
+            broken = broken or "extracted type checker (wgslcheck) unavailable: %s" % str(e)[-400:]
     setlists = [sets_for(ctx, i, p) for i, p in enumerate(progs)]
     results = run_go(tool, progs, setlists)
     # typed-generator programs are large and contain no unusual control flow: the model is run on them
